@@ -3568,6 +3568,7 @@ func c05RuleEvents(c *Ctx, e *c05Eng) {
 	// goroutine roots
 	type root struct {
 		lit   *ast.FuncLit
+		named *ast.FuncDecl // `go vt.run()`: the goroutine's body is a declared function of the package
 		in    *ast.FuncDecl
 		reach map[*FuncInfo]bool
 	}
@@ -3588,6 +3589,13 @@ func c05RuleEvents(c *Ctx, e *c05Eng) {
 					r := &root{lit: lit, in: fd, reach: map[*FuncInfo]bool{}}
 					c05Reach(c.P, pk, lit.Body, r.reach)
 					roots = append(roots, r)
+				} else if fn := calleeOf(info, t.Call); fn != nil {
+					if gfi := c.P.FuncOfObj(fn); gfi != nil && gfi.Pkg == pk && gfi.Decl.Body != nil {
+						fd, _ := enclosing(t)
+						r := &root{named: gfi.Decl, in: fd, reach: map[*FuncInfo]bool{gfi: true}}
+						c05Reach(c.P, pk, gfi.Decl.Body, r.reach)
+						roots = append(roots, r)
+					}
 				}
 			case *ast.UnaryExpr:
 				if t.Op == token.ARROW {
@@ -3625,7 +3633,7 @@ func c05RuleEvents(c *Ctx, e *c05Eng) {
 		fi := c.P.Func(fname)
 		verdict := ""
 		for _, r := range roots {
-			inRoot := lit == r.lit || (fi != nil && r.reach[fi])
+			inRoot := (r.lit != nil && lit == r.lit) || (fi != nil && r.reach[fi])
 			if !inRoot {
 				continue
 			}
@@ -3636,7 +3644,7 @@ func c05RuleEvents(c *Ctx, e *c05Eng) {
 					continue
 				}
 				n++
-				if rc.lit != r.lit {
+				if !((r.lit != nil && rc.lit == r.lit) || (r.named != nil && rc.lit == nil && rc.fd == r.named)) {
 					only = false
 				}
 			}
@@ -3920,13 +3928,21 @@ func c05RuleRecover(c *Ctx, e *c05Eng) {
 			if !ok {
 				return true
 			}
-			lit, ok := gs.Call.Fun.(*ast.FuncLit)
-			if !ok {
+			var body *ast.BlockStmt
+			if lit, ok := gs.Call.Fun.(*ast.FuncLit); ok {
+				body = lit.Body
+			} else if fn := calleeOf(info, gs.Call); fn != nil {
+				// `go vt.run()`: the goroutine's body is a declared function of the package
+				if gfi := c.P.FuncOfObj(fn); gfi != nil && gfi.Pkg == pk && gfi.Decl.Body != nil {
+					body = gfi.Decl.Body
+				}
+			}
+			if body == nil {
 				return true
 			}
 			// the PTY goroutine: calls update
 			reach := map[*FuncInfo]bool{}
-			c05Reach(c.P, pk, lit.Body, reach)
+			c05Reach(c.P, pk, body, reach)
 			up := c.P.Func("widgets/term.(*Model).update")
 			if up == nil || !reach[up] {
 				return true
@@ -3939,8 +3955,8 @@ func c05RuleRecover(c *Ctx, e *c05Eng) {
 				}
 			}
 			var handler *FuncInfo
-			if len(lit.Body.List) > 0 {
-				if ds, ok := lit.Body.List[0].(*ast.DeferStmt); ok {
+			if len(body.List) > 0 {
+				if ds, ok := body.List[0].(*ast.DeferStmt); ok {
 					if fn := calleeOf(info, ds.Call); fn != nil {
 						handler = c.P.FuncOfObj(fn)
 					}
